@@ -25,49 +25,33 @@ fn install_env() {
     anda_db_utils::verif::set_random_seed(Some(7));
 }
 
-/// Two flushed documents (templates 0 and 1 -> ids 1 and 2), all index kinds.
+/// Two flushed documents (templates 0 and 1 -> ids 1 and 2), for the index set `idx`,
+/// built (once per index set and storage configuration variant of the calling thread)
+/// under `fixture::config_variant()`.
 pub fn preloaded(idx: Idx) -> &'static Preloaded {
-    static CELL: OnceLock<Vec<(Idx, Preloaded)>> = OnceLock::new();
-    let all = CELL.get_or_init(|| {
-        let mut v = Vec::new();
-        for idx in [
-            Idx::ALL,
-            Idx {
-                age_opt: true,
-                opt_opt2: true,
-                emb: false,
-                ..Idx::ALL
-            },
-            // one index missing each: index CREATION (with backfill) as a cancellation target in C06
-            Idx { tags: false, ..Idx::ALL },
-            Idx { body: false, ..Idx::ALL },
-            Idx { emb: false, ..Idx::ALL },
-            Idx { name: false, ..Idx::ALL },
-        ] {
-            install_env();
-            let (cs, _ctl) = CtlStore::new();
-            let model = util::block_on(async {
-                let mut fx = Fixture::open(cs.clone(), idx).await.expect("preload open");
-                let mut model = SeqModel::default();
-                for op in [Op::Add(0), Op::Add(1), Op::Flush] {
-                    let out = fx.exec_any(&op).await;
-                    assert!(out.is_ok(), "preload {op:?} failed: {}", out.short());
-                    model.apply(&op, &out);
-                }
-                fx.db.close().await.expect("preload close");
-                model
-            });
-            v.push((
-                idx,
-                Preloaded {
-                    content: ctlstore::snapshot(cs.inner()),
-                    model,
-                },
-            ));
+    static CELL: OnceLock<parking_lot::Mutex<Vec<((Idx, u8), &'static Preloaded)>>> = OnceLock::new();
+    let variant = crate::fixture::config_variant();
+    let cell = CELL.get_or_init(|| parking_lot::Mutex::new(Vec::new()));
+    let mut all = cell.lock();
+    if let Some((_, p)) = all.iter().find(|(k, _)| *k == (idx, variant)) {
+        return p;
+    }
+    install_env();
+    let (cs, _ctl) = CtlStore::new();
+    let model = util::block_on(async {
+        let mut fx = Fixture::open(cs.clone(), idx).await.expect("preload open");
+        let mut model = SeqModel::default();
+        for op in [Op::Add(0), Op::Add(1), Op::Flush] {
+            let out = fx.exec_any(&op).await;
+            assert!(out.is_ok(), "preload {op:?} failed: {}", out.short());
+            model.apply(&op, &out);
         }
-        v
+        fx.db.close().await.expect("preload close");
+        model
     });
-    &all.iter().find(|(i, _)| *i == idx).expect("preloaded idx").1
+    let p: &'static Preloaded = Box::leak(Box::new(Preloaded { content: ctlstore::snapshot(cs.inner()), model }));
+    all.push(((idx, variant), p));
+    p
 }
 
 pub struct Live {
